@@ -1945,8 +1945,8 @@ class C17(Prop):
             for key in ("tgt", "src", "h"):
                 if key in e2 and e2[key] in aliases and e2["k"] != "drop":
                     e2[key] = aliases[e2[key]]
-            if e2["k"] == "drop" and e2.get("kind") == "T" and e2["h"] in aliases:
-                continue
+            if e2["k"] == "drop" and e2.get("kind") == "T" and (e2["h"] in aliases or e2["h"] in set(aliases.values())):
+                continue  # one tensor behind several handles: it stays alive as long as any of them
             ev2.append(e2)
         tw = run_twin(hist, ev2)
         compare_checkpoints(w, tw, "C17", "C17.astensor_identity_twin", grads="all", skip_handles=set(aliases), what="astensor-calls-removed")
